@@ -34,6 +34,7 @@ RULE = ('random single assemblies with 0-4 spacer grids (loss coefficient or '
         'types incl. six-node regions; non-trivial when pressure drop > 0 '
         'and >= 2 step sizes compared; distinct by (grids, gravity, regions, '
         'friction correlation)')
+RULE += (' Later rounds added: inputs in user units, cores with up to three types, top regions one step thick, the pressure-drop table and pressure_drop.csv rows.')
 DECIDING = ['DP1_increments_nonnegative', 'DP2_sum_of_parts',
             'DP3_friction_closed_form', 'DP5_step_size_independent',
             'DP4_each_grid_exactly_once']
